@@ -419,6 +419,20 @@ def pa_list_from_arrays(eng, s, fr, args, kwargs, lineno):
         raise Unsupported("from_arrays offsets")
     o = off.fields['values']
     eng.oblige(fr, s, 'pre', 'from_arrays.at-least-one-offset', o.length() >= 1, lineno)
+    msk = off.fields['mask']
+    if isinstance(msk, SArr):
+        # pyarrow replaces a null offset by the next valid one (the null slot gets an empty range):
+        #   R[k] == given[k] where the offset is valid,  R[k] == R[k+1] where it is null; the last must be valid
+        n_off = o.length()
+        eng.oblige(fr, s, 'pre', 'from_arrays.last-offset-valid', Not(to_bool(cell(s, msk, n_off - 1))), lineno)
+        given, mk = o, msk
+        R = st.new_sym_array(s, 'int', 'int32', [n_off], 'cleaned_offsets')
+        snap0 = _Snap(dict(s.heap))
+        s.assume(forall('int', lambda k: Implies(And(k >= 0, k < n_off, Not(to_bool(cell(snap0, mk, k)))),
+                                                 cell(snap0, R, k) == cell(snap0, given, k))))
+        s.assume(forall('int', lambda k: Implies(And(k >= 0, k < n_off - 1, to_bool(cell(snap0, mk, k))),
+                                                 cell(snap0, R, k) == cell(snap0, R, k + 1))))
+        o = R
     if isinstance(child, SRecord) and child.cls == 'pa.Array':
         if not isinstance(child.fields['mask'], SNone):
             raise Unsupported("masked leaf values")
